@@ -35,11 +35,10 @@ import (
 	"github.com/caddyserver/caddy/v2/modules/caddyhttp"
 )
 
-func (fsrv *FileServer) directoryListing(ctx context.Context, fileSystem fs.FS, parentModTime time.Time, entries []fs.DirEntry, canGoUp bool, root, urlPath string, repl *caddy.Replacer) *browseTemplateContext {
+func (fsrv *FileServer) directoryListing(ctx context.Context, fileSystem fs.FS, parentModTime time.Time, entries []fs.DirEntry, canGoUp bool, root, dirPath, urlPath string, repl *caddy.Replacer) *browseTemplateContext {
 	filesToHide := fsrv.transformHidePaths(repl)
 
 	name, _ := url.PathUnescape(urlPath)
-	dirURLPath := name
 
 	tplCtx := &browseTemplateContext{
 		Name:         path.Base(name),
@@ -57,9 +56,11 @@ func (fsrv *FileServer) directoryListing(ctx context.Context, fileSystem fs.FS, 
 
 		// a hide rule can name a path (it contains a separator), so besides the bare
 		// name also check the entry's path on the file system, which is what decides
-		// that the entry cannot be requested either
+		// that the entry cannot be requested either; dirPath is the directory being
+		// listed, which is not root joined with the URL path when an index file name
+		// led to it
 		if fileHidden(name, filesToHide) ||
-			fileHidden(caddyhttp.SanitizedPathJoin(root, path.Join(dirURLPath, name)), filesToHide) {
+			fileHidden(filepath.Join(dirPath, name), filesToHide) {
 			continue
 		}
 
